@@ -451,7 +451,7 @@ class Exec:
     __slots__ = ("trace", "err", "key", "nops", "model", "nest", "sibling")
 
 
-def run_execution(sh, ch, nops, maxdev, want_key=False, actions_from=0, opset=None, nest=True, sibling=False):
+def run_execution(sh, ch, nops, maxdev, want_key=False, actions_from=0, opset=None, nest=True, sibling=False, want=None):
     """Run `nops` operations (explorer-chosen) on a fresh real machine and on the model in lock step.
     Returns Exec; err = None or (observable, why, message) of the first disagreement."""
     from magicbot.magic_tunable import setup_tunables
@@ -586,7 +586,12 @@ def run_execution(sh, ch, nops, maxdev, want_key=False, actions_from=0, opset=No
         else:
             step_err = compare(sh, op, real, model, now)
         if step_err:
-            break
+            if want is None or "crash" in step or (props_of(step_err[0], step_err[1], sh["auto"]) & want):
+                break
+            # a disagreement that does not speak about the property under check: keep going (the model stays the
+            # specification), a later step may disagree on something that does
+            step["other_disagreement"] = list(step_err)
+            step_err = None
     ex.trace = trace
     ex.err = step_err
     ex.nops = nops
@@ -824,7 +829,7 @@ def explore_shape(item):
     record = _recorder(sh, res, set(item["props"]), maxdev, item.get("seed", 0))
 
     def run(ch):
-        ex = run_execution(sh, ch, nops, maxdev)
+        ex = run_execution(sh, ch, nops, maxdev, want=set(item["props"]))
         record(ex, ch, "flat", maxdev)
         if not res.samples and len(ch.choices) > nops:
             res.sample(dict(shape=sh["name"], source=class_source(sh), ops=[s["op"] for s in ex.trace], acts=[s["acts"] for s in ex.trace], observed=norm_obs(ex.trace)))
@@ -877,7 +882,7 @@ def explore_level(item):
     found = []
     for prefix in item["prefixes"]:
         def run(ch):
-            ex = run_execution(sh, ch, d + 1, item.get("maxdev"), want_key=True, opset=item.get("opset"), nest=item.get("nest", True), sibling=item.get("sibling", False))
+            ex = run_execution(sh, ch, d + 1, item.get("maxdev"), want_key=True, opset=item.get("opset"), nest=item.get("nest", True), sibling=item.get("sibling", False), want=set(item["props"]))
             record(ex, ch, item.get("label", "bfs"), item.get("maxdev"), item.get("opset"))
             res.transitions += 1
             if ex.key is not None:
